@@ -1147,6 +1147,8 @@ class Process(StateMachine, persistence.Savable, metaclass=ProcessStateMachineMe
             # Already paused
             return True
 
+        self._drop_withdrawn_requests()
+
         if self._killing is not None:
             # Being killed, which takes precedence: there will be nothing left to pause
             return False
@@ -1220,6 +1222,16 @@ class Process(StateMachine, persistence.Savable, metaclass=ProcessStateMachineMe
 
         raise ValueError(f"Got unknown interruption type '{type(exception)}'")
 
+    def _drop_withdrawn_requests(self) -> None:
+        """Forget a pending kill or pause whose caller gave up on it, i.e. cancelled the future that ``kill()`` or
+        ``pause()`` returned (``asyncio.wait_for(proc.kill(), timeout)`` timing out does just that)."""
+        if self._killing is not None and self._killing.cancelled():
+            self._killing = None
+        if self._pausing is not None and self._pausing.cancelled():
+            self._pausing = None
+        if self._interrupt_action is not None and self._interrupt_action.cancelled():
+            self._interrupt_action = None
+
     def _set_interrupt_action(self, new_action: Optional[futures.CancellableAction]) -> None:
         """
         Set the interrupt action cancelling the current one if it exists
@@ -1282,6 +1294,8 @@ class Process(StateMachine, persistence.Savable, metaclass=ProcessStateMachineMe
         if self.has_terminated():
             # Can't kill
             return False
+
+        self._drop_withdrawn_requests()
 
         if self._killing:
             # Already killing
@@ -1412,6 +1426,9 @@ class Process(StateMachine, persistence.Savable, metaclass=ProcessStateMachineMe
                 # The step function raised: that outcome is not to be swallowed by a pending kill (or pause)
                 self._set_interrupt_action(None)
 
+            # A request whose caller gave up on it in the meantime is withdrawn: the step simply makes its transition
+            self._drop_withdrawn_requests()
+
             if self._interrupt_action:
                 # Detach the action so that a request made while it runs does not cancel it under its feet
                 action, self._interrupt_action = self._interrupt_action, None
@@ -1421,9 +1438,11 @@ class Process(StateMachine, persistence.Savable, metaclass=ProcessStateMachineMe
                 self.transition_to(next_state)
 
             # Requests made from within the transition (by listeners or hooks) could not be acted upon there
+            self._drop_withdrawn_requests()
             while self._interrupt_action is not None and not self.has_terminated():
                 action, self._interrupt_action = self._interrupt_action, None
                 action.run(None)
+                self._drop_withdrawn_requests()
 
         finally:
             self._stepping = False
